@@ -1,6 +1,6 @@
 (* C11 — lemmas about the bundled client: the request each method builds (generated table Gen/RestClient.v),
    routed through the server model, performs exactly the operation of that method with the arguments given. *)
-From V Require Import Base.Common Base.C11_Http Gen.RestRoutes Gen.RestClient Model.C11_Rest Model.C11_Check Proofs.C11_Rest.
+From V Require Import Base.Common Base.C11_Http Gen.RestRoutes Gen.RestClient Model.C11_Rest Model.C11_Check Model.C11_Tables Proofs.C11_Rest.
 Open Scope string_scope.
 Open Scope list_scope.
 
@@ -89,27 +89,6 @@ Proof. intros [H _]. apply String.eqb_neq. exact H. Qed.
 (* ------------------------------------------------------------------------------------------ *)
 (* the generated client table                                                                 *)
 (* ------------------------------------------------------------------------------------------ *)
-(* hand-written: client method -> (HTTP method, path format before '?', carries the local flag) *)
-Definition client_spec_table : list (string * (string * string * bool)) := [
-  ("ID", ("GET", "/id", false)); ("Version", ("GET", "/version", false)); ("Peers", ("GET", "/peers", false));
-  ("PeerAdd", ("POST", "/peers", false)); ("PeerRm", ("DELETE", "/peers/%s", false));
-  ("Pin", ("POST", "/pins/%s", false)); ("Unpin", ("DELETE", "/pins/%s", false));
-  ("PinPath", ("POST", "/pins%s", false)); ("UnpinPath", ("DELETE", "/pins%s", false));
-  ("Allocations", ("GET", "/allocations", false)); ("Allocation", ("GET", "/allocations/%s", false));
-  ("Status", ("GET", "/pins/%s", true)); ("StatusAll", ("GET", "/pins", true));
-  ("Recover", ("POST", "/pins/%s/recover", true)); ("RecoverAll", ("POST", "/pins/recover", true));
-  ("Alerts", ("GET", "/health/alerts", false)); ("GetConnectGraph", ("GET", "/health/graph", false));
-  ("Metrics", ("GET", "/monitor/metrics/%s", false)); ("MetricNames", ("GET", "/monitor/metrics", false));
-  ("RepoGC", ("POST", "/ipfs/gc", true)); ("Add", ("POST", "/add", false)); ("AddMultiFile", ("POST", "/add", false))].
-
-Definition known_calls : list string := map fst client_spec_table.
-
-Definition client_entry (n : string) : option (string * string * bool) :=
-  match client_lookup client_requests 3 n with
-  | Some (m, f) => Some (m, fmt_path f, contains "local=%t" f)
-  | None => None
-  end.
-
 Lemma client_table_is : map (fun n => (n, client_entry n)) known_calls = map (fun r => (fst r, Some (snd r))) client_spec_table.
 Proof. vm_compute. reflexivity. Qed.
 
